@@ -2,4 +2,8 @@
 # replay one h_solve script against the library built from /repo's working tree
 cd "$(dirname "$0")/.."
 B=$(tools/build_repo.sh) || exit 2
-grep -v '^#' "$1" | "$B/h_solve"
+D=$(mktemp -d /var/tmp/qsx_replay.XXXXXX)
+grep -v '^#' "$1" | QSX_SCRATCH=$D "$B/h_solve${QSX_ASAN:+_asan}"
+rc=$?
+rm -rf "$D"
+exit $rc
